@@ -456,10 +456,13 @@ def returns_without_await(fn: FunctionInfo, repo: Repo) -> list[ast.Return]:
 # T4: who may write
 
 
-def owners(chk, rule: str, repo: Repo, modules: list[str], attr: str, allowed: dict[str, str], what: str, cls_hint: str | None = None):
+def owners(chk, rule: str, repo: Repo, modules: list[str], attr: str, allowed: dict[str, str], what: str, cls_hint: str | None = None, classes: tuple[str, ...] | None = None):
     """Writers of `.attr` within `modules` are contained in `allowed` (qualname -> reason), closed
     under helper extraction (a new writer all of whose package callers are allowed writers)."""
     w = prog.writers(repo, modules, attr)
+    if classes is not None:
+        # attribute names are shared between classes of a module: judge the writers of the named classes only
+        w = {f: h for f, h in w.items() if f.qualname.split(".")[0] in classes}
     if not w:
         chk.analysis_error(f"{rule}: no writer of .{attr} found in {modules}: anchor attribute vanished")
         return
@@ -515,3 +518,47 @@ def enclosing_try_handlers(node):
 
 def loop_ancestors(node):
     return list(prog.enclosing(node, (ast.For, ast.AsyncFor, ast.While)))
+
+
+def wake_tests(fn: FunctionInfo, waiter_attr: str = "_waiter"):
+    """`if <waiter> is not None: ... set_result/set_exception(<waiter>)` statements of fn, where
+    <waiter> is self.<waiter_attr> or a local bound to it (incl. the walrus form)."""
+    out = []
+    for n in ast.walk(fn.node):
+        if not isinstance(n, ast.If):
+            continue
+        t = norm.text(n.test, n)
+        if f"self.{waiter_attr}" not in t:
+            # `waiter = self._waiter` immediately before, with `waiter` re-used for several futures
+            names = {x.id for x in ast.walk(n.test) if isinstance(x, ast.Name)}
+            blk = PC._block_of(n) or []
+            prev = blk[blk.index(n) - 1] if n in blk and blk.index(n) > 0 else None
+            if not (isinstance(prev, ast.Assign) and len(prev.targets) == 1 and isinstance(prev.targets[0], ast.Name) and prev.targets[0].id in names
+                    and norm.raw(prev.value) == f"self.{waiter_attr}"):
+                continue
+        body_txt = " ".join(norm.raw(b) for b in n.body)
+        if "set_result(" in body_txt or "set_exception(" in body_txt:
+            out.append(n)
+    return out
+
+
+def wakes_waiter(chk, rule: str, repo: Repo, fn: FunctionInfo, trigger_pats: list[str], what: str, waiter_attr: str = "_waiter", helper: str | None = "_release_waiter"):
+    """T2: after each producer state change every path to exit evaluates the waiter wake-up."""
+    g = cfg_of(fn.node)
+    tests = wake_tests(fn, waiter_attr)
+    tnodes = [n for t in tests for n in g.nodes_of(t.test)]
+
+    def via(n):
+        if n in tnodes:
+            return True
+        if helper and node_has(n, f"self.{helper}()"):
+            return True
+        return False
+
+    found = 0
+    for pat in trigger_pats:
+        trig = [n for n in g.nodes if n.in_finally_copy is None and node_has(n, pat)]
+        for t in trig:
+            found += 1
+            must_pass(chk, rule, fn, [t], via, f"{what}: after `{short(t.ast, 50)}` a waiting reader is woken on every path", construct=short(t.ast, 60), missing="waiter wake-up")
+    return found
